@@ -270,8 +270,6 @@ class SharedDataMiddleware:
                 return []
 
             headers.append(("Expires", http_date(time() + timeout)))
-        else:
-            headers.append(("Cache-Control", "public"))
 
         headers.extend(
             (
